@@ -18,7 +18,7 @@ mkdir -p "$d/verif"
 rsync -a --exclude 'target-*' --exclude work --exclude replays --exclude evidence --exclude .git --exclude seeded /verif/ "$d/verif/"
 ln -sfn "$d/repo" "$d/verif/repo-link"
 # warm dependency caches (the library and the harness are rebuilt anyway: their paths differ)
-for t in /verif/target-*; do [ -d "$t" ] && cp -r "$t" "$d/verif/" ; done
+for t in /verif/target-*; do case "$t" in *cov*|*tsan*) continue;; esac; [ -d "$t" ] && cp -r "$t" "$d/verif/" ; done
 cd "$d/verif"
 for prop in "$@"; do
   # first the cheap flavours; the full plan only if they miss
